@@ -41,6 +41,11 @@ func init() {
 // timerStop handles (*time.Timer).Stop for timers created by the AfterFunc model; ok=false for
 // any other timer.
 func (m *Machine) timerStop(p *Ptr) (Value, bool) {
+	if t := m.vtimerOf(p); t != nil {
+		was := t.armed
+		t.armed = false
+		return m.tt.Bool(was), true
+	}
 	if p == nil || p.Obj == nil || m.afterFuncs == nil {
 		return nil, false
 	}
@@ -51,4 +56,117 @@ func (m *Machine) timerStop(p *Ptr) (Value, bool) {
 	was := !st.stopped && !st.fired
 	st.stopped = true
 	return m.tt.Bool(was), true
+}
+
+// ---------------------------------------------------------------------------
+// Virtual-time timers: time.NewTimer / (*Timer).Reset / Stop (and, when the harness does not
+// replace it, time.After, whose real body calls NewTimer). The machine keeps a virtual clock
+// (nanoseconds, concrete). Time passes only (a) when every goroutine is blocked: the clock jumps
+// to the earliest armed deadline and that timer fires, and (b) when the harness calls
+// verifAdvance(d) ("this step took d"): every timer that falls due fires in deadline order.
+// Firing = a non-blocking send on the timer's channel of capacity 1, as in the runtime. Reset and
+// Stop do NOT drain the channel (the semantics of modules below go 1.23, which is what the
+// repository's go.mod selects). Durations must be concrete.
+// ---------------------------------------------------------------------------
+
+type vTimer struct {
+	ch       *ChanV
+	deadline int64
+	armed    bool
+	seq      int
+}
+
+func (m *Machine) vtimerOf(p *Ptr) *vTimer {
+	if p == nil || p.Obj == nil || m.vtimers == nil {
+		return nil
+	}
+	return m.vtimers[p.Obj]
+}
+
+func (m *Machine) vtimerFire(t *vTimer) {
+	t.armed = false
+	if t.deadline > m.vnow {
+		m.vnow = t.deadline
+	}
+	if len(t.ch.buf) < t.ch.cap {
+		t.ch.buf = append(t.ch.buf, sendItem{v: m.zero(t.ch.et)})
+	}
+}
+
+// earliest armed timer (ties: creation order)
+func (m *Machine) vtimerEarliest() *vTimer {
+	var best *vTimer
+	for _, t := range m.vtimerList {
+		if t.armed && (best == nil || t.deadline < best.deadline) {
+			best = t
+		}
+	}
+	return best
+}
+
+// fireOnIdle: every goroutine is blocked - let time pass until the next timer is due.
+func (m *Machine) fireOnIdle() bool {
+	t := m.vtimerEarliest()
+	if t == nil {
+		return false
+	}
+	m.vtimerFire(t)
+	return true
+}
+
+func (m *Machine) vtimerAdvance(d int64) {
+	target := m.vnow + d
+	for {
+		t := m.vtimerEarliest()
+		if t == nil || t.deadline > target {
+			break
+		}
+		m.vtimerFire(t)
+	}
+	m.vnow = target
+}
+
+func init() {
+	intrinsics["time.NewTimer"] = func(m *Machine, th *Thread, fn *ssa.Function, a []Value, site ssa.Instruction) Value {
+		d := m.intArg(a[0])
+		timerT := fn.Signature.Results().At(0).Type().(*types.Pointer).Elem()
+		obj := m.newObj(timerT, m.zero(timerT), "time.NewTimer")
+		st := timerT.Underlying().(*types.Struct)
+		var ch *ChanV
+		for i := 0; i < st.NumFields(); i++ {
+			if st.Field(i).Name() == "C" {
+				ct := types.NewChan(types.SendRecv, st.Field(i).Type().Underlying().(*types.Chan).Elem())
+				ch = m.newChan(1, ct)
+				m.store((&Ptr{Obj: obj}).sub(i), ch)
+			}
+		}
+		if ch == nil {
+			panic(m.unsupported("time.Timer without field C"))
+		}
+		if m.vtimers == nil {
+			m.vtimers = map[*Obj]*vTimer{}
+		}
+		t := &vTimer{ch: ch, deadline: m.vnow + d, armed: true, seq: len(m.vtimerList)}
+		m.vtimers[obj] = t
+		m.vtimerList = append(m.vtimerList, t)
+		return &Ptr{Obj: obj}
+	}
+	intrinsics["(*time.Timer).Reset"] = func(m *Machine, th *Thread, fn *ssa.Function, a []Value, site ssa.Instruction) Value {
+		p, _ := a[0].(*Ptr)
+		t := m.vtimerOf(p)
+		if t == nil {
+			panic(m.unsupported("(*time.Timer).Reset on a timer the engine did not create"))
+		}
+		was := t.armed
+		t.deadline = m.vnow + m.intArg(a[1])
+		t.armed = true
+		return m.tt.Bool(was)
+	}
+	intrinsics["verifAdvance"] = func(m *Machine, th *Thread, fn *ssa.Function, a []Value, site ssa.Instruction) Value {
+		m.vtimerAdvance(m.intArg(a[0]))
+		return nil
+	}
+	intrinsics["verifClock"] = func(m *Machine, th *Thread, fn *ssa.Function, a []Value, site ssa.Instruction) Value {
+		return m.tt.Const(64, uint64(m.vnow))
+	}
 }
